@@ -150,10 +150,14 @@ def apply_contract(I, contract, fn, args, kwargs, node):
     env2 = dict(env)
     env2["old"] = Namespace(old)
     env2["result"] = result
-    for cl in contract.ensures:
-        if "final" in [a.arg for a in clause_function(contract, cl).node.args.args]:
-            continue        # clause about the callee's internals: proved of the callee, not usable by callers
-        v = eval_clause(I, contract, cl, env2)
-        ctx.assume(I.truth(v) if not isinstance(I.truth(v), bool) else I.truth(v))
+    ctx.assuming += 1
+    try:
+        for cl in contract.ensures:
+            if "final" in [a.arg for a in clause_function(contract, cl).node.args.args]:
+                continue        # clause about the callee's internals: proved of the callee, not usable by callers
+            v = eval_clause(I, contract, cl, env2)
+            ctx.assume(I.truth(v) if not isinstance(I.truth(v), bool) else I.truth(v))
+    finally:
+        ctx.assuming -= 1
     ctx.assumed_contracts.add(contract.target)
     return result
